@@ -48,6 +48,16 @@ func stepHook(node string) {
 
 var trackKinds = false
 
+// directory of document pools (children inherit it through the environment)
+var poolDir = func() string {
+	if d := os.Getenv("VERIF_POOLS"); d != "" {
+		return d
+	}
+	return "/verif/spec/pools"
+}()
+
+func jsonInt(i int) json.Number { return json.Number(strconv.Itoa(i)) }
+
 func countSteps(f func()) int64 {
 	a := stepCounter.Load()
 	f()
@@ -250,10 +260,12 @@ func replayMain(args []string) {
 	keep := fs.Int("keep", 400, "violations kept with full detail")
 	nsamples := fs.Int("samples", 6, "samples kept")
 	logPath := fs.String("log", "", "file receiving the non-case lines of the input (TLC's own output)")
-	poolDir := fs.String("pools", "/verif/spec/pools", "directory of document pools")
+	poolDirFlag := fs.String("pools", poolDir, "directory of document pools")
 	var dups int64
 	fs.Parse(args)
 	start := time.Now()
+	os.Setenv("VERIF_POOLS", *poolDirFlag)
+	poolDir = *poolDirFlag
 
 	lines := make(chan []byte, 4096)
 	var mu sync.Mutex
@@ -334,7 +346,7 @@ func replayMain(args []string) {
 					record(nil, Result{Class: "harness", Detail: "bad line: " + err.Error() + ": " + string(line[:min(len(line), 200)])})
 					continue
 				}
-				subs, err := expandPool(m0, *poolDir)
+				subs, err := expandPool(m0, poolDir)
 				if err != nil {
 					record(m0, Result{Class: "harness", Detail: err.Error()})
 					continue
@@ -505,7 +517,13 @@ func loadPool(dir, name string) ([]any, error) {
 		if ok, why := t.plainJSON(); !ok {
 			return nil, fmt.Errorf("pool %s[%d]: %s", name, i, why)
 		}
-		out[i] = t.toJSON()
+		// through JSON text so that the in-memory form equals what a worker decodes
+		b, _ := json.Marshal(t.toJSON())
+		m, err := decodeLine(b)
+		if err != nil {
+			return nil, err
+		}
+		out[i] = m
 	}
 	poolCache.Store(name, out)
 	return out, nil
@@ -540,7 +558,7 @@ func expandPool(m map[string]any, dir string) ([]map[string]any, error) {
 		return out, nil
 	}
 	name, ok := m["pool"].(string)
-	if !ok {
+	if !ok || getString(m, "kind") == "hist" || getString(m, "kind") == "sched" {
 		return []map[string]any{m}, nil
 	}
 	docs, err := loadPool(dir, name)
